@@ -84,9 +84,13 @@ class CallMixin:
                     # pass-through of *args to a callable value: the arguments are not tracked
                     yield from go(i + 1, st, acc)
                     return
-                if isinstance(fn, (FuncRef, MethodRef)):
+                if isinstance(fn, (FuncRef, MethodRef, BuiltinRef)):
                     for st1, v in self.ev(a.value, st):
                         v = self.as_value(v)
+                        if isinstance(v.t, TTuple):
+                            # f(*pair): a tuple of statically known length unpacks into positional arguments
+                            yield from go(i + 1, st1, acc + list(tuple_items(v)))
+                            continue
                         if not isinstance(v.t, TSeq):
                             raise EngineError(f"*args of a non-sequence at call site: {v.t}")
                         yield from go(i + 1, st1, acc + [("$star", v)])
